@@ -261,8 +261,13 @@ def run(facts, R):
             if w["body"] is not ft:
                 continue
             g = texts(facts_at(ft, fs_, facts, w["bb"]))
-            ok = any("first(" in x and "Some{0: 1}" in x and x.endswith("is True") for x in g)
-            R.check(ok and const_val(fs_.rvalue(w["rv"])) == 1, "eof-only-after-last", ft.path, "%s := true only on the last edge" % fld, "%s set under %s" % (fld, g[-2:]), w["span"])
+            v = fs_.rvalue(w["rv"])
+            ok = any("first(" in x and "Some{0: 1}" in x and x.endswith("is True") for x in g) and const_val(v) == 1
+            # or unconditionally `flag |= last` with last = (query.first() == Some(1))
+            if not ok and v[0] == "bin" and v[1] == "BitOr":
+                sides = [render_n(v[2]), render_n(v[3])]
+                ok = any(x.endswith("." + fld) for x in sides) and any("first(" in x and "Some{0: 1}" in x and "eq(" in x for x in sides)
+            R.check(ok, "eof-only-after-last", ft.path, "%s := true only on the last edge" % fld, "%s := %s under %s" % (fld, render(v)[:80], g[-2:]), w["span"])
     pl = facts.body("value_stream::pull_loop_async::{closure#0}")
     pls = Sym(pl)
     oks = blocks_assigning_variant(pl, "std::result::Result", "Ok")
@@ -270,7 +275,7 @@ def run(facts, R):
     for i, j, st in oks:
         g = texts(facts_at(pl, pls, facts, i))
         last = any("first(" in x and "Some{0: 1}" in x and x.endswith("is True") for x in g)
-        dropped = any("is_err(" in x and "send" in x and x.endswith("is True") for x in g)
+        dropped = any("is_err(" in x and "send" in x and x.endswith("is True") for x in g) or any("is_ok(" in x and "send" in x and x.endswith("is False") for x in g)
         R.check(last or dropped, "eof-only-after-last", pl.path, "Ok only on last or receiver-dropped", "pull loop returns Ok under %s" % [x[-80:] for x in g], st.get("span"),
                 "last edge" if last else "consumer dropped its receiver")
 
